@@ -14,6 +14,7 @@ fn hist_case(depth: u8, full: bool, cap: usize, pushes: &[u64]) -> Value {
 /// Run one push history on the real builder and compare with the reference set model.
 pub fn check_history(depth: u8, full: bool, cap: usize, pushes: &[u64], part: &mut Part) -> Option<Viol> {
   let api = "BMOCBuilderFixedDepth";
+  journal(api, || hist_case(depth, full, cap, pushes));
   let pv = pushes.to_vec();
   let r = guarded(move || {
     let mut b = BMOCBuilderFixedDepth::with_capacity(depth, full, cap);
@@ -81,6 +82,7 @@ pub fn check_runs(depth: u8, full: bool, cap: usize, runs: &[(u64, u64)], part: 
 /// Runs (start, count, stride): `count` cells start, start + stride, ... pushed in order.
 pub fn check_strided_runs(depth: u8, full: bool, cap: usize, runs: &[(u64, u64, u64)], part: &mut Part) -> Option<Viol> {
   let api = "BMOCBuilderFixedDepth";
+  journal("BMOCBuilderFixedDepth", || json!({"kind": "runs", "depth": depth, "is_full": full, "capacity": cap, "runs": runs.iter().map(|r| json!([r.0.to_string(), r.1.to_string(), r.2.to_string()])).collect::<Vec<_>>()}));
   let rv = runs.to_vec();
   let r = guarded(move || {
     let mut b = BMOCBuilderFixedDepth::with_capacity(depth, full, cap);
@@ -143,6 +145,7 @@ pub fn check_sequence(op: &str, bm: &Bm, new_depth: Option<u8>, part: &mut Part)
   let entries = bm.entries.clone();
   let dm = bm.depth_max;
   let opn = op.to_string();
+  journal(&api, || seq_case(op, bm, new_depth));
   let r = guarded(move || {
     let mut b = BMOCBuilderUnsafe::new(dm, entries.len().max(1));
     for &(d, h, f) in &entries {
